@@ -509,6 +509,12 @@ def alphabet_c(sid, thorough):
         evs.append(('get', r))
         for v in ('', 'A', 'B', ' '):          # ' ': a blank value is a value (not an empty position)
             evs.append(('set', r, v))
+    if sid == 'ISA':
+        # the ISA carries the delimiters as DATA (ISA11, ISA16): a program that re-delimits an interchange writes the
+        # segment object's own element / component separator into them
+        for r in (['ISA16', '11'] + (['16', 'ISA11'] if thorough else [])):
+            for v in ('*', ':'):
+                evs.append(('set', r, v))
     return evs
 
 
